@@ -5,12 +5,12 @@ from batchie.data import Screen, ExperimentSpace
 from batchie.retrospective import create_random_holdout
 
 SCR = os.environ.get("PYVC_TMP") or tempfile.gettempdir()
-NAMES = ["a", "", "ü", "漢字", "long-name-with-many-characters", "b c", "control", "é́"]
+NAMES = ["a", "", "ü", "漢字", "long-name-with-many-characters", "b c", "control", "é́", "a ", " a", "a\t", " ", "control "]
 
 
 def make(rnd):
     n = rnd.randrange(1, 9)
-    plates = np.array([rnd.choice(["p", "", "plate-ü", "q"]) for _ in range(n)])
+    plates = np.array([rnd.choice(["p", "", "plate-ü", "q", "p ", " q", "\t"]) for _ in range(n)])
     obs_by = {p: rnd.random() < 0.5 for p in set(plates)}
     obs = np.array([rnd.choice([0.0, -0.0, 5e-324, 1.0 / 3, float("nan"), float("inf"), rnd.random()]) for _ in range(n)])
     ar = rnd.choice([1, 2, 3])
